@@ -419,7 +419,7 @@ pub fn plan(tier: Tier) -> Plan {
   ];
   let mut jobs = vec![];
   let (l_main, l_ref) = match tier {
-    Tier::Quick => (5, 5),
+    Tier::Quick => (6, 5),
     Tier::Thorough => (7, 6),
   };
   for k in kinds {
